@@ -304,7 +304,7 @@ def b_list(V, st, args, kwargs, node):
     if items is not None:
         return MList(items)
     if isinstance(v, SV) and isinstance(v.t, SeqT):
-        return v
+        return SV(v.t, v.z)       # a COPY: not owned by whoever owns v
     raise Unsupported('list() of %r' % (v,))
 
 
@@ -317,7 +317,7 @@ def b_tuple(V, st, args, kwargs, node):
     if items is not None:
         return MTup(items)
     if isinstance(v, SV) and isinstance(v.t, SeqT):
-        return v
+        return SV(v.t, v.z)
     raise Unsupported('tuple() of %r' % (v,))
 
 
@@ -472,6 +472,17 @@ def b_sorted(V, st, args, kwargs, node):
 
 @_b('next')
 def b_next(V, st, args, kwargs, node):
+    from .values import MIter
+    if len(args) == 2 and isinstance(args[0], MIter):
+        import ast as _ast
+        it = args[0]
+        a0 = node.args[0] if isinstance(node, _ast.Call) and node.args else None
+        if not isinstance(a0, _ast.Name) or st.env.get(a0.id) is not it:
+            raise Unsupported('next() on an iterator that is not a plain local')
+        if it.pos < len(it.items):
+            st.env[a0.id] = MIter(it.items, it.pos + 1)
+            return it.items[it.pos]
+        return args[1]
     # next(iterable, default) on a sequence value: its first element, or the default
     if len(args) == 2 and isinstance(args[0], SV) and isinstance(args[0].t, SeqT):
         s = args[0]
@@ -485,6 +496,11 @@ def b_next(V, st, args, kwargs, node):
 
 @_b('iter')
 def b_iter(V, st, args, kwargs, node):
+    from .values import MIter
+    if not V.is_live(args[0]):
+        items = V.iter_items(args[0], st, node)
+        if items is not None:
+            return MIter(items, 0)
     if V.is_live(args[0]):
         V.live_effect(st, 'user:iter', args[0], node)
         V.may_raise(st, fresh(BOOL, 'iterable').z, 'TypeError', 'object is not iterable', node)
